@@ -152,7 +152,7 @@ class Davenport:
         self.w: np.ndarray = kw.get('weights', np.ones(2))
         # Reference measurements
         mdip: np.ndarray = kw.get('magnetic_dip')           # Magnetic dip, in degrees
-        self.m_q: np.ndarray = REFERENCE_MAGNETIC_VECTOR if mdip is None else np.array([cosd(mdip), 0., sind(mdip)])
+        self.m_q: np.ndarray = np.copy(REFERENCE_MAGNETIC_VECTOR) if mdip is None else np.array([cosd(mdip), 0., sind(mdip)])
         g: float = kw.get('gravity', GRAVITY)               # Earth's normal gravity, in m/s^2
         self.g_q: np.ndarray = np.array([0.0, 0.0, g])      # Normal Gravity vector
         if self.acc is not None and self.mag is not None:
